@@ -194,7 +194,7 @@ def run(ctx):
     corpus = []
     if os.path.isdir(cdir):
         for fn in sorted(os.listdir(cdir)):
-            if fn.endswith(".json"):
+            if fn.endswith(".json") and not fn.startswith("hp_"):      # hp_*: handle programs, run by handleprog.stream
                 c = json.load(open(os.path.join(cdir, fn)))
                 corpus.append((c["ds"], [c["prog"]], 0, 0, False))
     results = _run_jobs(ctx, corpus + jobs)
@@ -280,6 +280,12 @@ def run(ctx):
         ctx.correspondence("Read.run ~ ParquetFile access program on the real code", case, R.align(mi, p["impl"]), p["impl"])
     ctx.extra["datasets"] = len(jobs)
     ctx.extra["corpus_cases"] = len(corpus)
+    # programs that INTERLEAVE observers (head, count, info, statistics, len), derivations (non-prefix / strided / reversed slices,
+    # picks, pickle, copy, deepcopy) and edits / failed edits through the same handle, on row groups of unequal sizes: every
+    # answer of a live handle against a fresh handle of the same state (harness/handleprog.py; the coherence theorem and the
+    # regenerated inventory are C17's obligations, a failed inventory check is repeated here as an obligation of C06)
+    from harness import handleprog as HP
+    HP.stream(ctx, nds=20 if quick else 150, nprog=4 if quick else 8, register_obligations=False)
 
 
 def _run_jobs(ctx, jobs):
@@ -309,6 +315,11 @@ def replay(rep):
         print(json.dumps(rep, indent=1)[:6000])
         return 1
     case = rep["case"]
+    if "handle_program" in case:
+        warnings.filterwarnings("ignore")
+        C.use_shadow()
+        from harness import handleprog as HP
+        return HP.replay_case(case["handle_program"])
     if "program_seed" in case:
         return _replay_crash(case)
     if "prog" not in case:
